@@ -202,3 +202,26 @@ Print Assumptions C20_ticker_received_are_sent.
 Print Assumptions C20_no_tick_after_stop.
 Print Assumptions C20_stop_return_follows_body.
 Print Assumptions C20_ticker_runs.
+
+(* ---- the correspondence check's history matchers are certified (Conc/XTimeMatcher.v): the sleep matcher is
+        sound and complete under convergence; the tick-guided ticker matcher is sound w.r.t. the unreduced model ---- *)
+From Juniper Require Conc.GoLTS Conc.XTime Conc.XTimeMatcher.
+
+Theorem C20_sleep_matcher_sound : forall d dl evs,
+    XTime.check_sleep (d, dl, evs) = true ->
+    exists ls s, GoLTS.run XTime.sstep (XTime.sinit d dl 0%Z) ls = Some s /\ XTimeMatcher.sleep_trace ls = evs.
+Proof. exact XTimeMatcher.sleep_check_sound. Qed.
+
+Theorem C20_sleep_matcher_rejections_genuine : forall d dl evs,
+    XTimeMatcher.sleep_converged (d, dl, evs) = true -> XTime.check_sleep (d, dl, evs) = false ->
+    forall ls s, GoLTS.run XTime.sstep (XTime.sinit d dl 0%Z) ls = Some s -> XTimeMatcher.sleep_trace ls <> evs.
+Proof. exact XTimeMatcher.sleep_reject_genuine. Qed.
+
+Theorem C20_ticker_matcher_sound : forall n evs,
+    XTime.check_ticker (n, evs) = true ->
+    exists ls s, GoLTS.run XTime.step (XTime.tinit n) ls = Some s /\ XTimeMatcher.ticker_trace ls = evs.
+Proof. exact XTimeMatcher.ticker_check_sound. Qed.
+
+Print Assumptions C20_sleep_matcher_sound.
+Print Assumptions C20_sleep_matcher_rejections_genuine.
+Print Assumptions C20_ticker_matcher_sound.
